@@ -275,13 +275,16 @@ def traffic_pair(kind, k):
         desc.update(a="Llc", dir=d)
         ev.append(desc)
     # turn-around: virtual time between the end of a received LLC PDU and the first frame of the answer
-    for fr in air.log[start:stop]:
+    # (the first frame after the decision to close still counts: the pause before it is a run loop pause)
+    for n, fr in enumerate(air.log[start:], start):
         kd, more, _, _ = tf.dep_parse(fr)
         if kd != "INF":
             continue
         if last_rx[fr.src] is not None:
             turn[fr.src] = max(turn[fr.src], int(round((fr.time - last_rx[fr.src]) * 13.56E6)))
             last_rx[fr.src] = None
+        if n >= stop:
+            break
         if not more:
             last_rx[fr.dst] = fr.time
     # every DEP frame after activation (also the closing phase): distinct (dir, size, bit rate)
@@ -429,12 +432,18 @@ def run(tier, seed):
     quick = tier == "quick"
     kinds = ["dep", "ml", "opt"] + ([] if quick else ["depx", "llcp"])
     # 1. TLC enumerates the grid
-    r = tlc.run("MC_P2pNeg.tla", "MC_P2pNeg.cfg" if quick else "MC_P2pNeg_thorough.cfg", PID,
-                workers=16, timeout=300 if quick else 1800)
-    if not r.ok:
-        ck.violation("spec:P2pNeg:" + ",".join(r.violated or ["deadlock"]),
-                     "TLC: the reference function violates its own symmetry/range invariants: %s" % str(r.error_trace)[:1500])
-    ck.cover(states=r.distinct, transitions=r.generated)
+    #    quick grid: activation, then connection announcements and obeying senders at the limits (Obey, LimitsSane);
+    #    thorough: additionally the big grid (activation step only)
+    rq = tlc.run("MC_P2pNeg.tla", "MC_P2pNeg.cfg", PID, workers=16, timeout=600)
+    runs = [rq, tlc.run("MC_P2pNeg.tla", "MC_P2pNeg_grid.cfg" if quick else "MC_P2pNeg_thorough.cfg", PID,
+                        workers=16, timeout=1800)]
+    for r in runs:
+        if not r.ok:
+            ck.violation("spec:P2pNeg:" + ",".join(r.violated or ["deadlock"]),
+                         "TLC: the reference violates its own symmetry/range/obey invariants: %s" % str(r.error_trace)[:1500])
+        ck.cover(states=r.distinct, transitions=r.generated)
+    r = runs[-1]
+    init_states = r.distinct // 2       # (the grid run has one successor per configuration)
     hit, _ = tlc.witnesses("MC_P2pNeg.tla", "MC_P2pNeg_reach.cfg", PID, WITNESSES)
     if set(WITNESSES) - hit:
         raise tlc.TLCError("vacuous model: witnesses not reached: %s" % sorted(set(WITNESSES) - hit))
@@ -450,18 +459,27 @@ def run(tier, seed):
     grid = sum(SIZE[kd] for kd in kinds)
     distinct = len({json.dumps(t["const"]["cfg"], sort_keys=True) for t in traces})
     # the number of initial states TLC enumerated is distinct/2 (each configuration has one successor)
-    exhaustive = len(traces) == grid and r.distinct == 2 * distinct
+    exhaustive = len(traces) == grid and init_states == distinct
     self_t = mutate_for_selftest(next(t for t in traces if any(e["a"] == "Frame" for e in t["ev"])))
-    self_f = mutate_traffic_selftest(next(t for t in traces if any(e["a"] == "Llc" and e["t"] == "AGF" for e in t["ev"])
-                                          and any(e["a"] == "Waits" and e["cyc"] for e in t["ev"])))
+    cands = [t for t in traces if any(e["a"] == "Llc" and e["t"] == "AGF" for e in t["ev"])
+             and any(e["a"] == "Waits" and e["cyc"] for e in t["ev"])]
+    cands = cands[::max(1, len(cands) // 6)][:6]
+    self_f = [m for t in cands for m in mutate_traffic_selftest(t)]
     verdicts, st = tlc.validate_traces("Trace_P2pNeg.tla", "Trace_P2pNeg.cfg", PID, traces + self_t + self_f,
                                        shards=16, timeout=900 if quick else 3000)
     for t in self_t:
         if verdicts[t["id"]][0] == "ACCEPT":
             raise tlc.TLCError("binding vacuous: corrupted trace %s accepted" % t["id"])
-    for t, inv in zip(self_f, ("Obey", "Timeouts")):
-        if (t["id"] + "#" + inv) not in verdicts:
-            raise tlc.TLCError("binding vacuous: %s not flagged by %s" % (t["id"], inv))
+    # demonstrated binding of the traffic phase: on recorded runs that conform, an information field one octet
+    # over the receiver's MIU must be flagged by Obey and a timeout 1 ms off by Timeouts
+    usable = [t for t in cands if verdicts[t["id"]][0] == "ACCEPT"
+              and not any((t["id"] + "#" + inv) in verdicts for inv in ("Obey", "Timeouts"))]
+    for t in usable:
+        for suffix, inv in (("-agf+1", "Obey"), ("-wait+1ms", "Timeouts")):
+            if (t["id"] + suffix + "#" + inv) not in verdicts:
+                raise tlc.TLCError("binding vacuous: %s%s not flagged by %s" % (t["id"], suffix, inv))
+    if not usable and all(verdicts[t["id"]][0] == "ACCEPT" for t in traces):
+        raise tlc.TLCError("binding vacuous: no full-traffic run usable for the self-test")
     acc = nframes = nx = nup = nllc = nfull = 0
     for tr in traces:
         v = verdicts[tr["id"]]
@@ -475,7 +493,7 @@ def run(tier, seed):
         flagged = [inv for inv in INVS if tr["id"] + "#" + inv in verdicts]
         for inv in INVS:
             w = verdicts.get(tr["id"] + "#" + inv)
-            if inv == "LinkUp" and ("RwtKept" in flagged or "LtoKept" in flagged):
+            if inv in ("LinkUp", "Timeouts", "Delivered") and ("RwtKept" in flagged or "LtoKept" in flagged):
                 continue        # the link broke because a pause exceeded the announced RWT / LTO: reported there
             if w is not None:
                 ck.violation(classify(tr, w), "configuration %s: event %d (%s) %s ; cfg=%s ; event=%s" % (
@@ -493,13 +511,13 @@ def run(tier, seed):
             json.dumps(tr["ev"][v[1] - 1])[:500]),
             replay=dict(kind=tr["const"]["kind"], k=tr["const"]["k"], full=any(e["a"] == "Dep" for e in tr["ev"])))
     ck.cover(full_traffic_runs=nfull, llc_pdus_checked=nllc,traces_validated_against_impl=acc, activations=len(traces), activated=nup, grid_size=grid,
-             distinct_configurations=distinct, tlc_initial_states=r.distinct // 2,
+             distinct_configurations=distinct, tlc_initial_states=init_states,
              exhaustive_over_structured_grid=exhaustive, full_product_size="~1.1e8 (not enumerated)",
              traffic_frames_monitored=nframes, llcp_pdus_transferred=nx, trace_states=st["states"],
              binding_selftest="altered send-miu, dropped Activate, oversize frame rejected; AGF information field + 1 "
                               "flagged by Obey, timeout + 1 ms flagged by Timeouts")
     ck.sample(dict(trace=traces[0]["id"], const=traces[0]["const"], activate=traces[0]["ev"][0]))
-    ck.sample(dict(mc="P2pNeg grid " + "+".join(kinds), initial_states=r.distinct // 2))
+    ck.sample(dict(mc="P2pNeg grid " + "+".join(kinds), initial_states=init_states, obey_states=rq.distinct))
     ck.assume("grid = full product of the NFC-DEP options (brs, acm, discovery technology, lri, lrt, rwt), full product of"
               " (miu, lto) of both sides, full product of (lsc, agf, SNEP bound) of both sides, each with the remaining"
               " options cycling deterministically; thorough adds DEP x 16 LLCP samples and the full LLCP product",
